@@ -70,6 +70,8 @@ def _generate_unquoted_parts(string, only_printable=False, unsafe=None):
 # NOTE: here, unsafe must be a container of bytes
 def unquote(string, only_printable=False, unsafe=None, normalize_space=False):
     if "%" not in string:
+        if normalize_space:
+            return string.replace(" ", "%20")
         return string
 
     q = "".join(
